@@ -174,10 +174,14 @@ INNER = {
     "string": '"s"', "bytes": 'b"s"', "none": "None", "true": "True", "ellipsis": "...", "tuple": "#(a 1)", "empty-tuple": "#()", "list": "[a]", "dict": '{"k" a}', "set": "#{a}",
     "listcomp": "(lfor x xs x)", "genexp": "(gfor x xs x)", "dictcomp": "(dfor x xs x x)", "fstring": 'f"{a}"', "statement-do": "(do (setv q 2) q)", "try-expr": "(try a (except [E1] 0))",
     "quoted-symbol": "'sym", "quoted-form": "'(f x)",
+    # operators applied to literals: nothing may be folded into a constant that prints with other binding strength
+    "unary-minus-of-int": "(- 7)", "unary-plus-of-int": "(+ 7)", "unary-minus-of-float": "(- 1.5)", "invert-of-int": "(bnot 7)", "minus-of-minus-literal": "(- (- 7))",
+    "sum-of-literals": "(+ 1 2)", "product-of-literals": "(* 2 3)", "power-of-literals": "(** 2 3)", "difference-of-literals": "(- 1 8)",
 }
 # one representative per Python precedence level / atom kind (quick tier); the thorough tier takes all of INNER
 INNER_CORE = ("lambda", "ternary", "walrus", "or", "and", "not", "compare", "bitor", "bitxor", "bitand", "shift", "add", "mul", "unary-minus", "invert", "pow",
-              "call", "subscript", "attribute", "name", "int", "float", "string", "tuple", "list", "dict", "listcomp", "genexp", "fstring", "statement-do")
+              "call", "subscript", "attribute", "name", "int", "float", "string", "tuple", "list", "dict", "listcomp", "genexp", "fstring", "statement-do",
+              "unary-minus-of-int", "unary-plus-of-int", "unary-minus-of-float", "invert-of-int", "difference-of-literals", "power-of-literals")
 NEGATIVE_SENSITIVE = ("pow-base", "pow-both", "attribute-base", "method-base", "await")
 NEGATIVE = {"negative-int": "-7", "negative-float": "-1.5", "negative-zero": "-0.0", "negative-complex": "-2j", "complex-sum": "1+2j", "negative-complex-sum": "-1-2j"}
 
